@@ -12,7 +12,7 @@ def run(ctx):
     ctx.apalache("BarAcctBroken", [("negative control: a placement that is not counted breaks the step", ["--init=IndInit", "--inv=IndInv", "--length=1"], "Error")])
     fills = ctx.gen("Gen_C13F", "Gen_C13F_%s.cfg" % t)
     hists = ctx.gen_printed("MC_C13", "Gen_C13_hist_%s.cfg" % t)
-    exact = ctx.gen_printed("MC_C13", "Gen_C13_exact.cfg", simulate="num=%d" % (200 if q else 6000), depth=61, seed=ctx.seed + 1)
+    exact = ctx.gen_printed("MC_C13", "Gen_C13_exact.cfg", simulate="num=%d" % (200 if q else 3000), depth=61, seed=ctx.seed + 1, parallel=1 if q else 2)      # thorough: two runs of 3000 (one run of 6000 exhausts a 3 GB heap)
     walks = ctx.gen_printed("MC_C13", "Gen_C13_walk.cfg", simulate="num=%d" % (20 if q else 600), depth=41, seed=ctx.seed + 2)
     if len(walks) > (150 if q else 5000):
         walks = ctx.rng.sample(walks, 150 if q else 5000)
@@ -33,6 +33,11 @@ def run(ctx):
         for pre in (0, 1):
             cases.append({"kind": "hist", "meter": m, "acts": [q4] * pre + [{"op": "set_meter", "count": 0, "unit": 0}] + [q4] * 6 +
                           [{"op": "set_meter", "count": m[0], "unit": m[1]}, q4]})
+    # '+' places one beat of the bar's unit - a quarter in the unbounded (0,0) meter - whatever unit the bar had before
+    plus = {"op": "plus", "arg": {"rest": False, "items": [{"t": "bare", "n": ["E"], "o": 0}]}}
+    for m in ([6, 8], [2, 2], [3, 2], [12, 8], [4, 4], [5, 16]):
+        cases.append({"kind": "hist", "meter": m, "acts": [plus, {"op": "set_meter", "count": 0, "unit": 0}, plus, plus,
+                                                             {"op": "set_meter", "count": m[0], "unit": m[1]}, plus, {"op": "set_meter", "count": 3, "unit": 8}, plus]})
     # meters of count 0 with a beat unit (length 0): accepted exactly for power-of-two units, from every starting meter, and back
     for m in ([2, 4], [4, 4], [0, 0]):
         for u in (1, 2, 4, 8, 16, 32, 64, 128, 3, 6, 12):
